@@ -12,10 +12,21 @@ Update == /\ More /\ Ev.op = "update"
           /\ ChkB("past", Close(Past', Ev.past), <<Past', Ev.past>>)
           /\ ChkB("overall", Close(Overall', Ev.overall), <<Overall', Ev.overall>>)
           /\ Adv
+(* a folded stretch of Ev.n correct predictions during which the implementation reported nothing (the harness folds only such stretches, and only
+   after at least window_size correct predictions in a row): the observation is the one after the last of them *)
+QuietEv == /\ More /\ Ev.op = "quiet"
+           /\ ChkB("a quiet stretch may be folded here (recent window all correct, nothing reported)", QuietPre, <<win, st, recs>>)
+           /\ Quiet(Ev.n)
+           /\ Chk("total", total', Ev.total) /\ Chk("since", since', Ev.since)
+           /\ Chk("state", st', Ev.state) /\ Chk("recs", recs', Ev.recs)
+           /\ ChkB("recent", Close(Recent', Ev.recent), <<Recent', Ev.recent>>)
+           /\ ChkB("past", Close(Past', Ev.past), <<Past', Ev.past>>)
+           /\ ChkB("overall", Close(Overall', Ev.overall), <<Overall', Ev.overall>>)
+           /\ Adv
 Counters == /\ Chk("total", total', Ev.total) /\ Chk("since", since', Ev.since)
             /\ Chk("state", st', Ev.state) /\ Chk("recs", recs', Ev.recs)
 UserReset == /\ More /\ Ev.op = "reset" /\ Reset /\ Counters /\ Adv
 Refused == /\ More /\ Ev.op = "bad" /\ (UNCHANGED stepdvars \/ PendingReset) /\ Counters /\ Adv
-Next == Update \/ UserReset \/ Refused
+Next == Update \/ UserReset \/ Refused \/ QuietEv
 Spec == Init /\ [][Next]_tvars
 ==========================================================================
